@@ -15,19 +15,31 @@ ALIAS_STRINGS = ["A", "Core", "x.y", "a.b.c", r"\1", r"\g<0>", "$^.*+?()[]{}|", 
 
 
 def intercepted_draw(arch, **kwargs):
-    """Calls arch.visualize(**kwargs) with the drawing backend and the layout replaced by recorders."""
-    import pytestarch.eval_structure.networkxgraph as nxg
+    """Calls arch.visualize(**kwargs) with the drawing backend and the layout replaced by recorders.  The two networkx
+    functions are replaced wherever they are bound (networkx itself and every loaded pytestarch module), so it does not
+    matter how the library imports them."""
+    import sys
+    import networkx
+    import pytestarch.eval_structure.networkxgraph  # noqa: F401  (make sure the drawing code is loaded)
     rec = {}
-    orig_draw, orig_layout = nxg.draw_networkx, nxg.spring_layout
 
-    def fake_draw(graph, **kw):
+    def fake_draw(graph, *a, **kw):
         rec["graph_nodes"] = list(graph.nodes)
         rec["kwargs"] = kw
 
-    def fake_layout(graph, **kw):
+    def fake_layout(graph, *a, **kw):
         rec["layout_kwargs"] = kw
         return "POS-TOKEN"
-    nxg.draw_networkx, nxg.spring_layout = fake_draw, fake_layout
+    originals = {"draw_networkx": networkx.draw_networkx, "spring_layout": networkx.spring_layout}
+    fakes = {"draw_networkx": fake_draw, "spring_layout": fake_layout}
+    patched = []
+    for mname, mod in list(sys.modules.items()):
+        if mod is None or not (mname == "networkx" or mname.startswith("networkx.") or mname == "pytestarch" or mname.startswith("pytestarch.")):
+            continue
+        for fname, orig in originals.items():
+            if getattr(mod, fname, None) is orig:
+                setattr(mod, fname, fakes[fname])
+                patched.append((mod, fname, orig))
     try:
         arch.visualize(**kwargs)
         return ("OK", rec)
@@ -36,7 +48,8 @@ def intercepted_draw(arch, **kwargs):
     except Exception as e:  # noqa: BLE001
         return ("ERR", (type(e).__name__, str(e)))
     finally:
-        nxg.draw_networkx, nxg.spring_layout = orig_draw, orig_layout
+        for mod, fname, orig in patched:
+            setattr(mod, fname, orig)
 
 
 def label_oracle(aliases: dict, m: str) -> str:
